@@ -1,5 +1,6 @@
 import LassoProofs.C02
 import LassoModel.Extracted
+import LassoProofs.Lemmas.Config
 /-
   C13 — clear() empties the interner completely and leaves it fully usable.
 -/
@@ -62,5 +63,12 @@ example : (match (Rodeo.new 255 2 1000).tryIntern C02.constEnv [1, 2, 3] true wi
 `Rodeo.clear` in the model clears the table, the string vector and every block, unconditionally.  The
 body of `Rodeo::clear` regenerated from the source is exactly the three `clear()` calls. -/
 theorem clear_body_is_three_clears : Extracted.rodeoClearBody = .clears [.map, .strings, .arena] := by decide
+
+/-- The code this file's theorems are about is the same under every feature configuration: the regenerated
+census of conditional compilation contains import blocks, whole serde impls, optional-dependency impls and
+module declarations only, and no gate inside any function body (`Lemmas/Config.lean`). -/
+theorem same_code_under_every_feature_configuration :
+    (Extracted.cfgGates.all fun g => g.kind != .other) = true ∧ Extracted.bodyGates.isEmpty = true :=
+  Lasso.one_code_base_for_all_configurations
 
 end Lasso.C13
